@@ -294,5 +294,55 @@ pub fn run(rep: &mut Report, thorough: bool) {
         &mut rep.sink,
     );
     rep.stage("tcp-ports", "TCP payloads x {v4,v6} x port sweeps (fresh validated flow each)", product(&dims), t0);
+    // port pairs whose SYN cookie is an edge value (0xffffffff: the valid acknowledgement is 0; 0;
+    // 0xfffffffe; 1): keys under which the flow 40000 -> 80 has such a cookie were found offline
+    // with the harness's own SipHash and are CONFIRMED against the real SYN-ACK here; the answers
+    // on that port pair must equal those on a neighbouring pair
+    {
+        let t0 = std::time::Instant::now();
+        let edge: [([u64; 2], u32); 4] = [([0xdcdce3a2, 0x5eed], 0xffff_ffff), ([0x45a0fb78, 0x5eed], 0), ([0x45a99a18, 0x5eed], 0xffff_fffe), ([0x32b774b09, 0x5eed], 1)];
+        let mut confirmed = 0u64;
+        let mut n = 0u64;
+        for (key, want) in edge {
+            let ecfg = Cfg::base().with_key(key);
+            let fe = flow4(40000, 80);
+            let fo = flow4(40001, 80);
+            let ck = learn_cookies(&ecfg, &[fe.clone(), fo.clone()]).unwrap_or_default();
+            if ck.get(&key_of(&fe)) != Some(&want) || ck.get(&key_of(&fo)).is_none() {
+                continue;
+            }
+            confirmed += 1;
+            let co = ck[&key_of(&fo)];
+            let mut d = match crate::driver::Driver::spawn(&ecfg) {
+                Ok(d) => d,
+                Err(e) => {
+                    rep.sink.machinery_errors.push(e);
+                    break;
+                }
+            };
+            for p in &tcp_sel {
+                let cmds = vec![Cmd::Reset, Cmd::Frame(fe.tcp(1000, want.wrapping_add(1), F_PSH | F_ACK, &p.bytes)), Cmd::Reset, Cmd::Frame(fo.tcp(1000, co.wrapping_add(1), F_PSH | F_ACK, &p.bytes))];
+                n += 2;
+                if let Ok(o) = d.exec(&cmds) {
+                    let a = canon_checked(p.name, &p.bytes, o[1].reply.as_deref(), &ctx_of(&fe, true));
+                    let b = canon_checked(p.name, &p.bytes, o[3].reply.as_deref(), &ctx_of(&fo, true));
+                    if !same(&a, &b) {
+                        rep.sink.violation(Violation {
+                            prop: "C19".into(),
+                            key: format!("port-or-version-dependence:tcp-edge-cookie:{}", p.name),
+                            what: format!("payload '{}' on the port pair 40000 -> 80 (SYN cookie {:#x}) gets {} but {} on 40001 -> 80", p.name, want, &a[..a.len().min(80)], &b[..b.len().min(80)]),
+                            cfg: ecfg.clone(),
+                            cmds: cmds.clone(),
+                            idx: n,
+                            stage: "edge-cookie-ports".into(),
+                        });
+                    }
+                }
+            }
+        }
+        rep.sink.count("edge_cookie_flows_confirmed", confirmed);
+        rep.sink.count("frames", n);
+        rep.stage("edge-cookie-ports", "TCP payloads on a port pair whose SYN cookie is 0xffffffff / 0 / 0xfffffffe / 1 (4 keys, confirmed against the real SYN-ACK) vs a neighbouring pair", n, t0);
+    }
     rep.states = rep.sink.classes.len() as u64;
 }
